@@ -117,6 +117,16 @@ def cases(tier, seed):
         out.append(dict(kind="valid", model="multisec", num_sections=ns, symmetry=bool(k % 2 == 0), seed=int(rng.integers(1 << 30)), shift=bool(k % 4 < 3),
                         nys=[int(rng.integers(2, 5)) if k % 2 == 0 else 3 for _ in range(ns)], nx=int(rng.integers(2, 4)),
                         flow=dict(alpha=float(np.round(rng.uniform(1, 8), 2)), v=50.0, rho=1.0, Mach_number=0.3, re=1e6), surfaces=[], _cost=6))
+    # generated multi-section wings; a sibling wing that differs in ONE generator parameter is built and run first in the same process
+    # (a result remembered from the sibling must not leak into this wing: compared with a fresh interpreter that never saw the sibling)
+    n = 4 if tier == "quick" else 60
+    for k in range(n):
+        ns = 2 + k % 2
+        key = ["root_chord", "span", "taper", "sweep"][k % 4]
+        out.append(dict(kind="valid", model="multisec_gen", num_sections=ns, symmetry=True, nx=int(rng.integers(2, 4)), nys=[int(rng.integers(2, 5)) for _ in range(ns)],
+                        span=[float(np.round(rng.uniform(1, 4), 3)) for _ in range(ns)], taper=[float(np.round(rng.uniform(0.5, 1.0), 3)) for _ in range(ns)],
+                        sweep=[float(np.round(rng.uniform(0, 0.4), 3)) for _ in range(ns)], root_chord=float(np.round(rng.uniform(0.8, 2.0), 3)), sibling=key,
+                        flow=dict(alpha=float(np.round(rng.uniform(1, 8), 2)), v=50.0, rho=1.0, Mach_number=0.3, re=1e6), surfaces=[], seed=int(rng.integers(1 << 30)), _cost=8))
     n = 3 if tier == "quick" else 40
     for k in range(n):
         m = int(rng.integers(3, 6))
@@ -318,9 +328,44 @@ def build_multisec(c):
     return prob
 
 
+def build_multisec_gen(c):
+    """multi-section surface whose section meshes come from the repository's generator ("meshes": "gen-meshes")"""
+    import openmdao.api as om
+    from openaerostruct.geometry.geometry_group import MultiSecGeometry, build_sections
+    from openaerostruct.geometry.geometry_unification import unify_mesh
+    from openaerostruct.aerodynamics.aero_groups import AeroPoint
+
+    ns = c["num_sections"]
+    surface = {"name": "surface", "is_multi_section": True, "num_sections": ns, "sec_name": ["sec%d" % i for i in range(ns)], "symmetry": c["symmetry"], "S_ref_type": "wetted",
+               "root_section": ns - 1, "taper": np.array(c["taper"], float), "span": np.array(c["span"], float), "sweep": np.array(c["sweep"], float), "root_chord": float(c["root_chord"]),
+               "meshes": "gen-meshes", "nx": c["nx"], "ny": np.array(c["nys"]), "CL0": 0.0, "CD0": 0.01, "k_lam": 0.05, "t_over_c_cp": [np.array([0.12]) for _ in range(ns)],
+               "c_max_t": 0.303, "with_viscous": True, "with_wave": False, "groundplane": False}
+    prob = om.Problem(reports=False)
+    ivc = om.IndepVarComp()
+    fl = dict(zoo.FLOW_DEFAULT)
+    fl.update(c["flow"])
+    for n_ in ("v", "alpha", "Mach_number", "re", "rho", "cg"):
+        ivc.add_output(n_, val=np.array(fl[n_], float), units=zoo.FLOW_UNITS[n_])
+    prob.model.add_subsystem("fc", ivc, promotes=["*"])
+    prob.model.add_subsystem("surface", MultiSecGeometry(surface=surface))
+    secs = build_sections(surface)
+    surface["mesh"] = unify_mesh(secs)
+    prob.model.add_subsystem("aero", AeroPoint(surfaces=[surface]), promotes_inputs=["v", "alpha", "Mach_number", "re", "rho", "cg"])
+    prob.model.connect("surface.surface_unification.surface_uni_mesh", "aero.surface.def_mesh")
+    prob.model.connect("surface.surface_unification.surface_uni_mesh", "aero.aero_states.surface_def_mesh")
+    prob.model.connect("surface.surface_unification.surface_uni_t_over_c", "aero.surface_perf.t_over_c")
+    with warnings.catch_warnings():
+        warnings.simplefilter("ignore")
+        prob.setup()
+    prob._oas_surfaces = [surface]
+    return prob
+
+
 def build(c):
     if c["model"] == "multisec":
         return build_multisec(c)
+    if c["model"] == "multisec_gen":
+        return build_multisec_gen(c)
     case = dict(surfaces=copy.deepcopy(c["surfaces"]), flow=c.get("flow", {}), compressible=c.get("compressible", False))
     extra = {k: c[k] for k in ("point_masses", "point_mass_locations", "engine_thrusts") if k in c}
     case.update(extra)
@@ -334,7 +379,7 @@ def build(c):
 
 
 def of_wrt(c):
-    if c["model"] in ("aero", "aero_geom", "multisec"):
+    if c["model"] in ("aero", "aero_geom", "multisec", "multisec_gen"):
         return ["aero.CL", "aero.CD"], ["alpha"]
     if c["model"] == "struct":
         return ["failure", "structural_mass"], ["loads"]
@@ -417,6 +462,12 @@ def compare_flat(o, fam, a, b, tags=(), rtol=1e-12, loose=1e-7):
 
 
 def run_valid(c, o):
+    if c["model"] == "multisec_gen" and c.get("sibling"):
+        k_ = c["sibling"]
+        sib = dict(c)
+        sib[k_] = float(np.round(c[k_] * 1.29, 4)) if k_ == "root_chord" else [float(np.round(x * 0.81 + (0.05 if k_ == "sweep" else 0.0), 4)) for x in c[k_]]
+        zoo.run(build(sib))
+        o.count("sibling_wings_run_first")
     prob = build(c)
     user = prob._oas_surfaces
     d0 = digest_user(user)
